@@ -439,7 +439,16 @@ def context_spec(rng, raising=True):
     ctx = []
     smp = {}
     for k in rng.sample(['ip', 'k', 'name', 'ж'], rng.choice([0, 0, 0, 0, 0, 1, 1, 2])):
-        r, v = sat_rule(rng, rng.choice([0, 0, 1]), raising)
+        if rng.random() < 0.25:
+            # a key that is present with a falsy value (None, 0, '', [], False) and a rule such a value satisfies:
+            # "present" must not be confused with "truthy" or "not None"
+            v = rng.choice([None, None, 0, '', [], False])
+            r = rng.choice([['Falsy'], ['Not', ['Truthy']], ['NotEq', 1], ['Eq', jv(v)], ['Any'],
+                            ['In', [None, 0, '', False]], ['Or', [['Falsy'], ['Eq', 5]]]])
+            if isinstance(v, list) and r[0] == 'In':
+                r = ['Falsy']
+        else:
+            r, v = sat_rule(rng, rng.choice([0, 0, 1]), raising)
         ctx.append([k, r])
         smp[k] = v
     return ctx, smp
